@@ -192,8 +192,9 @@ func openBatcher(c traceCfg) (*batchers.Batcher, func()) {
 	}
 }
 
-// waitReadersEnded gives the reader goroutines (which log src.close / rd.end after wg.Done, i.e. possibly
-// after the consumer has finished) a moment to finish logging, so that no event leaks into the next run.
+// waitReadersEnded gives the reader goroutines (which log rd.end after wg.Done, i.e. possibly after the
+// consumer has finished; src.close comes before wg.Done since /repo 7025f4b and the trace machine demands it
+// before c.wait) a moment to finish logging, so that no event leaks into the next run.
 func waitReadersEnded(c traceCfg) {
 	if c.mode != "f" {
 		return
